@@ -20,7 +20,10 @@
                          ++ lines of the children at depth d+1
    Domain ([node_wf]): every node is an element (has a name or attributes); names, attribute names, attribute
    values and ids contain no line break (class names are whitespace-separated by construction).  Node values
-   are arbitrary (one line, several lines, trailing line breaks, fields). *)
+   are arbitrary (one line, several lines, trailing line breaks, fields).
+   "Line break" means CR, LF or CRLF ([nocrlf] = neither CR nor LF occurs): the formatter splits text only
+   there (output_stream.re_line_break, fixes 8453eaf / eb70875); \f, \v, U+001C-1E, U+0085, U+2028/9 are
+   ordinary characters of a line. *)
 From Coq Require Import String.
 From Emmet Require Import lib.Base lib.StrLit model.MarkupTokenizer model.MarkupParser model.MarkupConvert
      model.OutStream model.FormatHtml model.FormatIndent proofs.IndentStream proofs.IndentProofs
@@ -88,9 +91,9 @@ Theorem C15_multiline_text :
 Proof. exact multiline_text_lines. Qed.
 Print Assumptions C15_multiline_text.
 
-(* every line split_by_lines produces is free of line breaks (so the k lines are k lines) *)
+(* every line split_by_lines produces is free of CR and LF (so the k lines are k lines); nothing else is split *)
 Theorem C15_split_lines_single :
-  forall v : list vtok, Forall (fun l => toks_nolb l = true) (split_by_lines v).
+  forall v : list vtok, Forall (fun l => toks_nocrlf l = true) (split_by_lines v).
 Proof. exact split_by_lines_pieces. Qed.
 Print Assumptions C15_split_lines_single.
 
@@ -141,12 +144,13 @@ Theorem C15_same_tree_as_html :
 Proof. exact same_tree. Qed.
 Print Assumptions C15_same_tree_as_html.
 
-(* non-vacuity: `ul#nav.a.b>li[title=x]{two\nlines}+.c` is in the domain; under haml with a tab indent the
+(* non-vacuity: `ul#nav.a.b>li[title=x]{tw\fo\nli\u2028nes}+.c` (form feed and U+2028 are ordinary characters
+   of their lines) is in the domain; under haml with a tab indent the
    theorem's right-hand side is the expected text *)
 Definition ex_attr (n : string) (v : string) : aattr := mkAAttr (Some (S n)) (Some [VStr (S v)]) VRaw false false false.
 Definition ex_tree : list anode :=
   [ANode (Some (S "ul")) None None (Some [ex_attr "id" "nav"; ex_attr "class" "a b"])
-     [ANode (Some (S "li")) (Some [VStr (S "two" ++ [c_nl] ++ S "lines")]) None (Some [ex_attr "title" "x"]) [] false;
+     [ANode (Some (S "li")) (Some [VStr (S "tw" ++ [12%N] ++ S "o" ++ [c_nl] ++ S "li" ++ [8232%N] ++ S "nes")]) None (Some [ex_attr "title" "x"]) [] false;
       ANode (Some (S "div")) None None (Some [ex_attr "class" "c"]) [] false] false].
 Definition ex_cfg : oconfig :=
   mkOconfig (mkOfmt [c_tab] [] [c_nl]) [] [] [] true false [] [] 3 false [] (S "html") [] false [] [] [] false None None.
@@ -158,6 +162,6 @@ Example C15_nonvacuous :
   /\ forallb fields_nonl ex_tree = true
   /\ nest 0 (flat_map (tree_events ex_cfg) ex_tree) = [(0, S "ul"); (1, S "li"); (1, S "div")]
   /\ join [c_nl] (flat_map (node_lines ex_cfg haml_opts 0) ex_tree)
-     = S "%ul#nav.a.b" ++ [c_nl; c_tab] ++ S "%li(title=""x"")" ++ [c_nl; c_tab; c_tab] ++ S "two   |"
-       ++ [c_nl; c_tab; c_tab] ++ S "lines |" ++ [c_nl; c_tab] ++ S ".c ".
+     = S "%ul#nav.a.b" ++ [c_nl; c_tab] ++ S "%li(title=""x"")" ++ [c_nl; c_tab; c_tab] ++ S "tw" ++ [12%N] ++ S "o   |"
+       ++ [c_nl; c_tab; c_tab] ++ S "li" ++ [8232%N] ++ S "nes |" ++ [c_nl; c_tab] ++ S ".c ".
 Proof. vm_compute. repeat split; reflexivity. Qed.
